@@ -22,7 +22,7 @@ T_MON = {
     "C01": ["M_CommitAtomic", "M_WriteCondition", "M_WriteValue", "M_PerKeyIncreasing", "M_FailedOnlyIfDiffered",
             "M_FailedLeavesKey", "M_SuccessMeansWritten", "M_DeleteReturnsPrev", "M_IndexAgrees", "M_NoPanic"],
     "C02": ["M_UniqueRevision", "M_RealTimeOrder", "M_PerKeyIncreasing", "M_HeaderCoversData", "M_NoPanic"],
-    "C04": ["M_NoOvertake", "M_CommittedMonotone", "M_CommittedWasReported", "M_Resolved", "M_ReadIsSnapshot", "M_HeaderCoversData", "M_NoPanic"],
+    "C04": ["M_NoOvertake", "M_CommittedMonotone", "M_CommittedWasReported", "M_Resolved", "M_ReadIsSnapshot", "M_ReadStable", "M_HeaderCoversData", "M_NoPanic"],
 }
 
 
